@@ -108,6 +108,9 @@ func (s *zzSpecStore) Append(_ context.Context, hs ...*zh.Hdr) error {
 	if len(hs) == 0 {
 		return nil
 	}
+	if s.gateHead {
+		zz.Gate("store:append") // optional scheduling point (see Head)
+	}
 	if s.failAppend != nil {
 		if err := s.failAppend(); err != nil {
 			return err
